@@ -61,6 +61,10 @@ func Upgrade(ctx context.Context, c clientset.Interface, asc asclientset.Interfa
 		for key := range sts.Spec.Selector.MatchLabels {
 			delete(revision.Labels, key)
 		}
+		if revision.Labels == nil {
+			// a selector made only of NotIn/DoesNotExist expressions also selects revisions without any label
+			revision.Labels = map[string]string{}
+		}
 		revision.Labels[UpgradeToAdvancedStatefulSetAnn] = sts.Name
 		_, err = c.AppsV1().ControllerRevisions(revision.Namespace).Update(ctx, &revision, metav1.UpdateOptions{})
 		if err != nil {
